@@ -5,3 +5,4 @@ import AikenVerif.Props.C05
 import AikenVerif.Props.C16
 import AikenVerif.Props.C08
 import AikenVerif.Props.C20
+import AikenVerif.Props.C11
